@@ -6,6 +6,7 @@ package processors
 import (
 	"errors"
 	"fmt"
+	"regexp/syntax"
 	"strings"
 
 	"github.com/itchyny/rassemble-go"
@@ -109,7 +110,7 @@ func (a *Assemble) store(identifier string) error {
 
 func (a *Assemble) append(identifier string) error {
 	if len(identifier) == 0 {
-		if len(a.proc.lines) == 1 {
+		if len(a.proc.lines) == 1 && !hasTopLevelAlternation(a.proc.lines[0]) {
 			// Treat as literal, could be start of a group or a range expresssion.
 			// Those can not be parsed by rassemble-go, since they are not valid
 			// expressions.
@@ -144,6 +145,43 @@ func (a *Assemble) append(identifier string) error {
 		}
 	}
 	return nil
+}
+
+// hasTopLevelAlternation reports whether line is a complete regular expression
+// with an alternation outside of any group or character class. Concatenating
+// such a line as is would bind only its first or last alternative to the
+// neighbouring expressions, so it needs to be wrapped in a group.
+// Partial expressions (not parsable on their own) are never reported.
+func hasTopLevelAlternation(line string) bool {
+	if _, err := syntax.Parse(line, syntax.Perl); err != nil {
+		return false
+	}
+	depth := 0
+	inClass := false
+	for i := 0; i < len(line); i++ {
+		switch c := line[i]; {
+		case c == '\\':
+			i++
+		case inClass:
+			inClass = c != ']'
+		case c == '[':
+			inClass = true
+			// a closing bracket right after the opening bracket (or the negation) is a literal
+			if i+1 < len(line) && line[i+1] == '^' {
+				i++
+			}
+			if i+1 < len(line) && line[i+1] == ']' {
+				i++
+			}
+		case c == '(':
+			depth++
+		case c == ')':
+			depth--
+		case c == '|' && depth == 0:
+			return true
+		}
+	}
+	return false
 }
 
 func (a *Assemble) runAssemble() (regex string, err error) {
